@@ -305,6 +305,242 @@ async fn publisher_recovers_t(addr: SocketAddr, certs: &Certs, bo: BackoffStrate
 }
 
 
+/// A connection that was re-established must be as good as a first one — including its QUIC keep-alive: a stream that
+/// recovered and is then idle for longer than the idle timeout still delivers what is published next. The server runs
+/// with a 2 s idle timeout, the clients ping every 500 ms.
+pub async fn idle_after_recovery(certs: &Certs, id: u64) -> std::result::Result<u64, (String, String)> {
+    let inc = |e: String| ("INCONCLUSIVE".to_string(), e);
+    let server = {
+        let args = server_args(certs, "127.0.0.1:0", 2000);
+        let server = selium_server::server::Server::try_from(args).map_err(|e| inc(format!("server: {e}")))?;
+        let addr = server.addr().map_err(|e| inc(e.to_string()))?;
+        let task = tokio::spawn(async move {
+            let _ = server.listen().await;
+        });
+        (addr, task)
+    };
+    let addr = server.0.to_string();
+    let mk = |bo: Option<BackoffStrategy>| {
+        let addr = addr.clone();
+        let certs = certs.clone();
+        async move {
+            let mut b = selium::custom().keep_alive(500u64).map_err(|e| e.to_string())?;
+            if let Some(bo) = bo {
+                b = b.backoff_strategy(bo);
+            }
+            b.endpoint(&addr).with_certificate_authority(certs.client_ca()).map_err(|e| e.to_string())?.with_cert_and_key(certs.client_cert(), certs.client_key()).map_err(|e| e.to_string())?.connect().await.map_err(|e| e.to_string())
+        }
+    };
+    let topic = format!("/c12idleafter/top{}", id);
+    let cs = mk(Some(BackoffStrategy::constant().with_max_attempts(5).with_step(Duration::from_millis(50)))).await.map_err(inc)?;
+    let cp = mk(None).await.map_err(inc)?;
+    let mut sub = cs.subscriber(&topic).with_decoder(StringCodec).open().await.map_err(|e| inc(e.to_string()))?;
+    let mut publ = cp.publisher(&topic).with_encoder(StringCodec).open().await.map_err(|e| inc(e.to_string()))?;
+    let stop = |t: &tokio::task::JoinHandle<()>| t.abort();
+    // establish
+    let mut est = false;
+    for n in 0..60 {
+        let _ = publ.send(format!("est-{}", n)).await;
+        if let Ok(Some(Ok(_))) = tokio::time::timeout(Duration::from_millis(200), sub.next()).await {
+            est = true;
+            break;
+        }
+    }
+    if !est {
+        stop(&server.1);
+        return Err(inc("precondition not reached: nothing flowed".into()));
+    }
+    // idle on the *first* connection for longer than the idle timeout: the keep-alive keeps it up (control)
+    tokio::time::sleep(Duration::from_millis(2600)).await;
+    publ.send("m1".to_string()).await.map_err(|e| inc(format!("send m1: {e}")))?;
+    let mut ok = false;
+    let t0 = Instant::now();
+    while t0.elapsed() < Duration::from_secs(5) {
+        if let Ok(Some(Ok(s))) = tokio::time::timeout(Duration::from_millis(500), sub.next()).await {
+            if s == "m1" {
+                ok = true;
+                break;
+            }
+        }
+    }
+    if !ok {
+        stop(&server.1);
+        return Err(inc("precondition not reached: a first connection did not survive 2.6 s of idleness with a 500 ms keep-alive".into()));
+    }
+    // outage + recovery of the subscriber
+    cs.verif_close_connection().await;
+    let t0 = Instant::now();
+    let mut recovered = false;
+    let mut n = 0;
+    while t0.elapsed() < Duration::from_secs(20) {
+        n += 1;
+        let _ = publ.send(format!("probe-{}", n)).await;
+        match tokio::time::timeout(Duration::from_millis(300), sub.next()).await {
+            Ok(Some(Ok(s))) if s.starts_with("probe-") => {
+                recovered = true;
+                break;
+            }
+            Ok(Some(Err(e))) => {
+                stop(&server.1);
+                return Err(("subscriber/error-after-cut".into(), format!("the subscriber yielded {:?} after a single cut although the server was reachable", e.to_string())));
+            }
+            _ => {}
+        }
+    }
+    if !recovered {
+        stop(&server.1);
+        return Err(("subscriber/hangs-after-cut".into(), "nothing was delivered for 20 s after the subscriber's connection was cut".into()));
+    }
+    // drain the probes still under way, then stay idle for longer than the idle timeout
+    while let Ok(Some(Ok(_))) = tokio::time::timeout(Duration::from_millis(400), sub.next()).await {}
+    tokio::time::sleep(Duration::from_millis(2700)).await;
+    publ.send("m2".to_string()).await.map_err(|e| inc(format!("send m2: {e}")))?;
+    tokio::time::sleep(Duration::from_millis(1500)).await;
+    publ.send("m3".to_string()).await.map_err(|e| inc(format!("send m3: {e}")))?;
+    let mut got = vec![];
+    let t0 = Instant::now();
+    while t0.elapsed() < Duration::from_secs(6) && !got.contains(&"m3".to_string()) {
+        match tokio::time::timeout(Duration::from_millis(500), sub.next()).await {
+            Ok(Some(Ok(s))) => got.push(s),
+            Ok(Some(Err(e))) => {
+                stop(&server.1);
+                return Err(("subscriber/error-after-recovery".into(), format!("after recovery and 2.7 s of idleness the subscriber yielded {:?}", e.to_string())));
+            }
+            _ => {}
+        }
+    }
+    stop(&server.1);
+    if got == vec!["m2".to_string(), "m3".to_string()] {
+        Ok(2)
+    } else {
+        Err(("lost-after-recovery/idle-connection".into(), format!("the subscriber recovered from a connection loss, was then idle for 2.7 s (server idle timeout 2 s, client keep-alive 500 ms) and was sent m2 and, 1.5 s later, m3: it yielded {:?}", got)))
+    }
+}
+
+/// An *idle* stream through more successive outages than one outage has attempts: every outage gets the full budget,
+/// whether or not anything was exchanged in between. No request, no message between the cuts; afterwards the stream
+/// must work.
+async fn idle_streams_many_outages(addr: SocketAddr, certs: &Certs, attempts: u32, outages: usize, id: u64) -> std::result::Result<u64, V> {
+    let inc = |e: String| V("INCONCLUSIVE".into(), e);
+    let bo = BackoffStrategy::constant().with_max_attempts(attempts).with_step(Duration::from_millis(20));
+    let topic_rr = format!("/c12idle/rr{}", id);
+    let topic_ps = format!("/c12idle/ps{}", id);
+    let cl = lib_client(&addr.to_string(), certs, Some(bo)).await.map_err(|e| inc(e.to_string()))?;
+    let mut replier = cl
+        .replier(&topic_rr)
+        .with_request_decoder(StringCodec)
+        .with_reply_encoder(StringCodec)
+        .with_handler(|req: String| async move { Ok::<String, std::convert::Infallible>(format!("re:{}", req)) })
+        .open()
+        .await
+        .map_err(|e| inc(format!("open replier: {e}")))?;
+    let listen = tokio::spawn(async move { replier.listen().await });
+    let mut sub = cl.subscriber(&topic_ps).with_decoder(StringCodec).open().await.map_err(|e| inc(e.to_string()))?;
+    let sub_task = tokio::spawn(async move {
+        let mut got = vec![];
+        loop {
+            match sub.next().await {
+                Some(Ok(s)) => {
+                    let stop = s == "after-the-outages";
+                    got.push(Ok(s));
+                    if stop {
+                        break;
+                    }
+                }
+                Some(Err(e)) => {
+                    got.push(Err(format!("{}|{}", if is_too_many(&e) { "too-many-retries" } else { "other" }, e)));
+                    break;
+                }
+                None => break,
+            }
+        }
+        got
+    });
+    let other = lib_client(&addr.to_string(), certs, None).await.map_err(|e| inc(e.to_string()))?;
+    let mut rq = other.requestor(&topic_rr).with_request_encoder(StringCodec).with_reply_decoder(StringCodec).with_request_timeout(1000u64).map_err(|e| inc(e.to_string()))?.open().await.map_err(|e| inc(e.to_string()))?;
+    let mut publ = other.publisher(&topic_ps).with_encoder(StringCodec).open().await.map_err(|e| inc(e.to_string()))?;
+    let mut est = false;
+    for n in 0..40 {
+        if let Ok(v) = rq.request(format!("est-{}", n)).await {
+            if v == format!("re:est-{}", n) {
+                est = true;
+                break;
+            }
+        }
+        tokio::time::sleep(Duration::from_millis(50)).await;
+    }
+    if !est {
+        listen.abort();
+        sub_task.abort();
+        return Err(inc("precondition not reached: the replier never answered before the first cut".into()));
+    }
+    for _ in 0..outages {
+        cl.verif_close_connection().await;
+        // long enough for a re-registration (20 ms back-off + handshake), silent otherwise
+        tokio::time::sleep(Duration::from_millis(450)).await;
+    }
+    // the replier must answer again
+    let t0 = Instant::now();
+    let mut answered = false;
+    let mut n = 0;
+    while t0.elapsed() < Duration::from_secs(20) {
+        n += 1;
+        if let Ok(Ok(v)) = tokio::time::timeout(Duration::from_secs(5), rq.request(format!("after-{}", n))).await {
+            if v == format!("re:after-{}", n) {
+                answered = true;
+                break;
+            }
+        }
+        if listen.is_finished() {
+            break;
+        }
+        tokio::time::sleep(Duration::from_millis(100)).await;
+    }
+    if !answered {
+        let why = if listen.is_finished() {
+            match listen.await {
+                Ok(Err(e)) => format!("listen() returned Err({})", e),
+                Ok(Ok(())) => "listen() returned Ok".to_string(),
+                Err(e) => format!("listen task: {e}"),
+            }
+        } else {
+            listen.abort();
+            "listen() is still running".to_string()
+        };
+        sub_task.abort();
+        let sig = if why.contains("Too many") { "replier/gave-up-although-server-reachable/idle-outages" } else { "replier/not-recovered/idle-outages" };
+        return Err(V(sig.into(), format!("{} successive outages (each recovered, nothing exchanged in between; {} attempts per outage configured): no request was answered within 20 s afterwards; {}", outages, attempts, why)));
+    }
+    listen.abort();
+    // … and the idle subscriber must deliver again
+    let t0 = Instant::now();
+    let mut delivered = false;
+    while t0.elapsed() < Duration::from_secs(20) && !sub_task.is_finished() {
+        let _ = publ.send("after-the-outages".to_string()).await;
+        tokio::time::sleep(Duration::from_millis(150)).await;
+    }
+    if sub_task.is_finished() {
+        if let Ok(got) = sub_task.await {
+            match got.last() {
+                Some(Ok(s)) if s == "after-the-outages" => delivered = true,
+                Some(Err(e)) => {
+                    return Err(V(
+                        if e.starts_with("too-many") { "subscriber/gave-up-although-server-reachable/idle-outages".into() } else { "subscriber/error-after-cut/idle-outages".into() },
+                        format!("{} successive outages with nothing exchanged in between ({} attempts per outage): the idle subscriber yielded {:?}", outages, attempts, e),
+                    ))
+                }
+                _ => {}
+            }
+        }
+    } else {
+        sub_task.abort();
+    }
+    if !delivered {
+        return Err(V("subscriber/hangs-after-cut/idle-outages".into(), format!("{} successive outages with nothing exchanged in between: nothing published afterwards reached the idle subscriber within 20 s", outages)));
+    }
+    Ok(outages as u64)
+}
+
 /// A publisher that publishes in bursts (`feed()` × n + `flush()`, or `send_all`), so that it meets the dead connection
 /// with more than the 8 KiB its framed writer buffers: it must re-establish itself like any other, and what it
 /// publishes after that must arrive.
@@ -962,6 +1198,22 @@ pub fn run_c14(rep: &mut StageReport, tier: &str, _seed: u64) {
             };
             out.push((*algo, r));
         }
+        // the pub/sub leg of the composition: batches of 5–11 incompressible messages that add up to 1.3–3 MiB, so
+        // that the publisher has to spread one batch over several frames; every message must come out again
+        for (k, (n, each)) in [(5usize, 300_000usize), (7, 250_000), (10, 250_000), (11, 200_000), (6, 400_000), (9, 120_000)].into_iter().enumerate() {
+            if !thorough && k >= 4 {
+                continue;
+            }
+            let comp = [None, Some("zstd"), Some("lz4"), Some("gzip")][k % 4];
+            let cfg = super::c03::Cfg { codec: "bytes", compression: comp.map(|s| s.to_string()), batch: Some((n as u32, 3_600_000)), count: n, payload: each, sizes: None, compressible: false, id: 94_000 + k as u64 };
+            let r = match tokio::time::timeout(Duration::from_secs(120), super::c03::run_bytes_cfg(server.endpoint(), certs.clone(), cfg, k as u64)).await {
+                Ok(super::c03::Outcome::Held { delivered }) => Ok(delivered as u64),
+                Ok(super::c03::Outcome::Violated { sig, detail }) => Err((format!("wire-composition/batched/{}", sig), format!("batch of {} × {} incompressible bytes, compression {:?}: {}", n, each, comp, detail))),
+                Ok(super::c03::Outcome::Inconclusive(why)) => Err(("INCONCLUSIVE".to_string(), why)),
+                Err(_) => Err(("INCONCLUSIVE".to_string(), "watchdog: batched configuration did not finish in 120 s".to_string())),
+            };
+            out.push((["batched/none", "batched/zstd", "batched/lz4", "batched/gzip"][k % 4], r));
+        }
         server.stop();
         out
     });
@@ -969,8 +1221,8 @@ pub fn run_c14(rep: &mut StageReport, tier: &str, _seed: u64) {
         rep.evaluations += 1;
         match r {
             Ok(n) => {
-                rep.distinct.insert(crate::common::fnv(algo.as_bytes()));
-                rep.count("l3_calls_with_exact_round_trip", n);
+                rep.distinct.insert(crate::common::mix(rep.evaluations, crate::common::fnv(algo.as_bytes())));
+                rep.count("l3_values_with_exact_round_trip", n);
                 rep.sample(json!({"l3": "library Requestor (request compression, reply decompression) ↔ library Replier (request decompression, reply compression) across connection losses of the requestor", "algorithm": algo, "calls_returning_the_exact_bytes": n}));
             }
             Err((sig, why)) if sig == "INCONCLUSIVE" => rep.inconclusive(&why),
@@ -1840,6 +2092,28 @@ pub fn run(rep: &mut StageReport, tier: &str, _seed: u64) {
                 Err(_) => Err(V("INCONCLUSIVE".into(), "watchdog: scenario did not finish in 300 s".into())),
             };
             out.push(("recovery/requestor-compressed".to_string(), cfg, r));
+        }
+        // a recovered connection left idle for longer than the server's idle timeout
+        {
+            let cfg = json!({"role": "subscriber", "server_idle_timeout_ms": 2000, "client_keep_alive_ms": 500, "idle_after_recovery_ms": 2700});
+            let r = match tokio::time::timeout(Duration::from_secs(120), idle_after_recovery(&certs.0, 1)).await {
+                Ok(Ok(n)) => Ok(n),
+                Ok(Err((sig, d))) => Err(V(if sig == "INCONCLUSIVE" { sig } else { format!("subscriber/{}", sig.trim_start_matches("subscriber/")) }, d)),
+                Err(_) => Err(V("INCONCLUSIVE".into(), "watchdog: idle-after-recovery scenario did not finish in 120 s".into())),
+            };
+            out.push(("recovery/idle-after-recovery".to_string(), cfg, r));
+        }
+        // idle streams through more outages than an outage has attempts
+        for (k, (attempts, outages)) in [(2u32, 4usize), (1, 3)].into_iter().enumerate() {
+            if !thorough && k == 1 {
+                continue;
+            }
+            let cfg = json!({"roles": "replier + subscriber on one client, idle", "backoff": "constant 20 ms", "max_attempts": attempts, "silent_outages": outages});
+            let r = match tokio::time::timeout(Duration::from_secs(300), idle_streams_many_outages(server.addr, &certs.0, attempts, outages, k as u64)).await {
+                Ok(r) => r,
+                Err(_) => Err(V("INCONCLUSIVE".into(), "watchdog: idle-outages scenario did not finish in 300 s".into())),
+            };
+            out.push(("recovery/idle-streams".to_string(), cfg, r));
         }
         // publishers that publish in bursts larger than the writer's buffer
         for (k, use_send_all) in [false, true].into_iter().enumerate() {
